@@ -19,6 +19,7 @@ var Registry = map[string]func() int{
 	"C12": C12,
 	"C14": C14,
 	"C15": C15,
+	"C16": C16,
 }
 
 func IDs() []string {
